@@ -56,3 +56,8 @@ Fixpoint strs_eqb (a b : list str) : bool :=
 Definition scope_mismatches (cs : list (N * list op * list str)) : list N :=
   flat_map (fun c => match c with (i, ops, o) =>
      if strs_eqb (run empty_scope ops) o then [] else [i] end) cs.
+
+(* case: index, sequence of GoTypeRef / GoTypeName calls on a fresh NameScope, observed strings *)
+Definition type_mismatches (t : table) (cs : list (N * list (bool * ty) * list str)) : list N :=
+  flat_map (fun c => match c with (i, calls, o) =>
+     if strs_eqb (run_types (fun n => t_goify t n true) empty_scope calls) o then [] else [i] end) cs.
